@@ -212,6 +212,27 @@ def run_config(chk, facts):
                       "true: a REPLACE_TABLE patch would be decoded as a diff against the old table")
     chk.floor("C18-d", "decode calls in apply_table_patch", nd, 1)
 
+    # ---- C18-e -------------------------------------------------------------------------------
+    chk.rule("C18-e", "T-GUARD: in the glyph-keyed applier a tag is recorded in the processed-table set only after, on the same "
+                      "path, a call that received the new font's builder by `&mut` (the rebuilt table was added): every table "
+                      "that is not rebuilt is later copied unchanged by copy_unprocessed_tables")
+    gk = chk.anchor("C18-e", "glyph_keyed::apply_glyph_keyed_patches", facts.body("incremental_font_transfer::glyph_keyed::apply_glyph_keyed_patches"))
+    builders = [bb for bb, t in gk.calls()
+                if any(aty.replace(" ", "").startswith("&mutwrite_fonts::font_builder::FontBuilder") for aty in (t.d.get("atys") or []))
+                and not t.callee.endswith("copy_unprocessed_tables")]
+    inserts = [(bb, t) for bb, t in gk.calls()
+               if t.callee.endswith("BTreeSet::<T, A>::insert") and "font_types::tag::Tag" in (t.d.get("cargs") or "")]
+    for bb, t in inserts:
+        doms = [pb for pb in builders if pb != bb and gk.dominates(pb, bb)]
+        # the dominating builder call must be in the same loop iteration: no way from it back to itself that reaches the insert
+        # first is automatically excluded by dominance of a block inside the loop body
+        ok = bool(doms)
+        chk.ob("C18-e", f"processed_tables.insert at line {t.line} follows a table rebuild on every path", ok,
+               key=f"{gk.path}|processed-insert", file=gk.file, line=t.line, fn=gk.path,
+               detail="a table is marked as processed on a path where nothing was written for it: copy_unprocessed_tables then "
+                      "skips it and the table silently disappears from the patched font")
+    chk.floor("C18-e", "processed_tables.insert sites", len(inserts), 1)
+
     # From<DecodeError>: arm count recorded (exhaustiveness is compiler checked)
     fd = facts.find_bodies(r"PatchingError as core::convert::From<shared_brotli_patch_decoder::decode_error::DecodeError>>::from$", IFT)
     if fd:
